@@ -155,7 +155,7 @@ func vK01gStmtStart() {
 			vAssume(hazard == 3 && d == 0) // only `let[a]` is an assignment / update target
 		}
 	}
-	ctx := vChoose(3)
+	ctx := vChoose(vParam("CTXS", 6))
 	switch ctx {
 	case 0: // expression statement
 		p.printStmt(js_ast.Stmt{Data: &js_ast.SExpr{Value: e}}, 0)
@@ -164,6 +164,14 @@ func vK01gStmtStart() {
 		p.printStmt(js_ast.Stmt{Data: &js_ast.SExpr{Value: js_ast.Expr{Data: &js_ast.EBinary{Op: js_ast.BinOpAssign, Left: hIdent(2), Right: arrow}}}}, 0)
 	case 2: // export default <expr>
 		p.printStmt(js_ast.Stmt{Data: &js_ast.SExportDefault{DefaultName: ast.LocRef{Loc: logger.Loc{}, Ref: ast.Ref{SourceIndex: 0, InnerIndex: 2}}, Value: js_ast.Stmt{Data: &js_ast.SExpr{Value: e}}}}, 0)
+	case 3: // for (<expr> in b) ;
+		vAssume(hazard == 3) // the left side of for-in / for-of must be an assignment target
+		p.printStmt(js_ast.Stmt{Data: &js_ast.SForIn{Init: js_ast.Stmt{Data: &js_ast.SExpr{Value: e}}, Value: hIdent(1), Body: js_ast.Stmt{Data: js_ast.SEmptyShared}}}, 0)
+	case 4: // for (<expr> of b) ;
+		vAssume(hazard == 3)
+		p.printStmt(js_ast.Stmt{Data: &js_ast.SForOf{Init: js_ast.Stmt{Data: &js_ast.SExpr{Value: e}}, Value: hIdent(1), Body: js_ast.Stmt{Data: js_ast.SEmptyShared}}}, 0)
+	case 5: // for (<expr>;;) ;
+		p.printStmt(js_ast.Stmt{Data: &js_ast.SFor{InitOrNil: js_ast.Stmt{Data: &js_ast.SExpr{Value: e}}, Body: js_ast.Stmt{Data: js_ast.SEmptyShared}}}, 0)
 	}
 	vObserveStr("js", string(p.js))
 	toks, ok, why := hTokenize(p.js)
@@ -180,6 +188,9 @@ func vK01gStmtStart() {
 		}
 	case 2:
 		vAssert(len(toks) >= 2 && toks[0] == "export" && toks[1] == "default", "export default prefix")
+		start = 2
+	case 3, 4, 5:
+		vAssert(len(toks) >= 2 && toks[0] == "for" && toks[1] == "(", "for head prefix")
 		start = 2
 	}
 	vAssert(start < len(toks), "expression present")
@@ -198,6 +209,103 @@ func vK01gStmtStart() {
 	case 2:
 		vAssert(t0 != "function" && t0 != "class", "an `export default` expression never starts with `function` or `class` (it would become a declaration)")
 		vAssert(!(t0 == "async" && t1 == "function"), "an `export default` expression never starts with `async function`")
+	case 3, 5:
+		vAssert(!(t0 == "let" && t1 == "["), "a for-in head / for-loop initialiser never starts with `let [` (it would be a lexical declaration)")
+	case 4:
+		vAssert(t0 != "let", "a for-of head never starts with `let`")
 	}
+	vReach("end")
+}
+
+// vK01gKey: property names. A string-valued, non-computed key of an object
+// literal, a class member or an object binding pattern is a PropertyName
+// (ECMA-262 13.2.5): an identifier name, a string literal in quotes or a
+// numeric literal, never a template literal.
+func vK01gKey() {
+	n := hLen(1, vParam("N", 2))
+	data := make([]uint16, n)
+	units := []uint16{'"', '\'', '`', 'a', '$', '\\', '\n', '1', ' ', 0x2028, 0xE9, 0xD800}
+	for i := range data {
+		data[i] = units[vChoose(len(units))]
+	}
+	opts := Options{MinifyWhitespace: vBool(), ASCIIOnly: vBool(), MinifySyntax: vBool()}
+	p := hNewPrinter(opts)
+	key := js_ast.Expr{Data: &js_ast.EString{Value: data}}
+	where := vChoose(4)
+	switch where {
+	case 0: // object literal
+		p.printExpr(js_ast.Expr{Data: &js_ast.EObject{Properties: []js_ast.Property{{Key: key, ValueOrNil: hIdent(0)}}}}, js_ast.LLowest, 0)
+	case 1: // class field
+		p.printExpr(js_ast.Expr{Data: &js_ast.EClass{Class: js_ast.Class{Properties: []js_ast.Property{{Kind: js_ast.PropertyField, Key: key, InitializerOrNil: hIdent(0)}}}}}, js_ast.LLowest, 0)
+	case 2: // object binding pattern: var {key: a} = b
+		p.printBinding(js_ast.Binding{Data: &js_ast.BObject{Properties: []js_ast.PropertyBinding{{Key: key, Value: js_ast.Binding{Data: &js_ast.BIdentifier{Ref: ast.Ref{SourceIndex: 0, InnerIndex: 0}}}}}}})
+	case 3: // binding with a default value
+		p.printBinding(js_ast.Binding{Data: &js_ast.BObject{Properties: []js_ast.PropertyBinding{{Key: key, Value: js_ast.Binding{Data: &js_ast.BIdentifier{Ref: ast.Ref{SourceIndex: 0, InnerIndex: 0}}}, DefaultValueOrNil: hIdent(1)}}}})
+	}
+	vObserveStr("js", string(p.js))
+	// first byte of the key: after the first `{` and white space
+	i := 0
+	for i < len(p.js) && p.js[i] != '{' {
+		i++
+	}
+	i++
+	for i < len(p.js) && (p.js[i] == ' ' || p.js[i] == '\n') {
+		i++
+	}
+	vAssert(i < len(p.js), "a key is printed")
+	c := p.js[i]
+	vAssert(c != '`', "a property name is never printed as a template literal")
+	if c == '"' || c == '\'' {
+		// the literal is closed by the same quote before the `:` / `=` / `}`
+		closed := false
+		for j := i + 1; j < len(p.js) && !closed; j++ {
+			if p.js[j] == '\\' {
+				j++
+				continue
+			}
+			if p.js[j] == c {
+				closed = true
+			}
+		}
+		vAssert(closed, "a quoted property name is a closed string literal")
+	}
+	vReach("end")
+}
+
+// vK01gNewTarget: the callee of `new` is a MemberExpression: it may not
+// contain a call (or import()) unless that part is parenthesised, otherwise
+// the first argument list would be taken as the arguments of `new`.
+func vK01gNewTarget() {
+	opts := Options{MinifyWhitespace: vBool()}
+	p := hNewPrinter(opts)
+	var e js_ast.Expr
+	switch vChoose(3) {
+	case 0:
+		e = js_ast.Expr{Data: &js_ast.ECall{Target: hIdent(0)}}
+	case 1:
+		e = js_ast.Expr{Data: &js_ast.EImportCall{Expr: hIdent(0)}}
+	case 2:
+		e = js_ast.Expr{Data: &js_ast.ECall{Target: js_ast.Expr{Data: &js_ast.EDot{Target: hIdent(0), Name: "m"}}}}
+	}
+	depth := hLen(0, vParam("DEPTH", 2))
+	for d := 0; d < depth; d++ {
+		switch vChoose(3) {
+		case 0:
+			e = js_ast.Expr{Data: &js_ast.EDot{Target: e, Name: "p"}}
+		case 1:
+			e = js_ast.Expr{Data: &js_ast.EIndex{Target: e, Index: hIdent(1)}}
+		case 2:
+			oc := js_ast.OptionalChainNone
+			e = js_ast.Expr{Data: &js_ast.EDot{Target: e, Name: "q", OptionalChain: oc}}
+		}
+	}
+	p.printExpr(js_ast.Expr{Data: &js_ast.ENew{Target: e}}, js_ast.LLowest, 0)
+	vObserveStr("js", string(p.js))
+	toks, ok, why := hTokenize(p.js)
+	vAssert(ok, "output tokenizes: "+why)
+	vAssert(len(toks) >= 2 && toks[0] == "new", "starts with new")
+	// walk the callee: until the first `(` outside brackets no call may occur;
+	// since the callee's spine contains a call, the callee must begin with `(`
+	vAssert(toks[1] == "(", "a `new` callee whose member chain is rooted in a call or import() is parenthesised (otherwise the call's arguments become the arguments of new)")
 	vReach("end")
 }
